@@ -18,7 +18,7 @@ The model is a pure function, so the two ways a run can depend on something else
   only other environment-dependent constructs in the source are the two of `C07_env_sites_covered`;
 * files on disk – the package the analysis sees is `hand-written ∪ generated files present ∪ overlay`
   (`GenState.effective`); generated files are read back only through the accessor-interface look-up
-  (`C07_stale_indep`).
+  (`C07_stale_indep`); running again over what a run has left is the same run (`C07_fixpoint`, all four sub-commands).
 
 Fixed since: F_getGoFile (f3054bd: `getGoFile` is a package-scope look-up now; `C07_getGoFile_fixed`), F_aliasDup (62d8144:
 a duplicate alias is a Fatal in every order; `C07_aliasDup_fixed`), F_msgOrder (376a366: the success message is sorted;
@@ -252,13 +252,40 @@ theorem C07_stale_indep (lk : Leaks) (fl : NFlags) (f₁ f₂ : Disk) (st : NSt)
     newStep lk fl f₁ st t = newStep lk fl f₂ st t := newStep_files_congr lk fl f₁ f₂ st t h
 
 /-- `map`, `enum`, `rest` never read generated files: their steps ignore the directory altogether, so every
-    history (repeat, stale output, deleted output) gives the same run.
-    Partial: for `new` the whole-run fixpoint is shown by the correspondence only (regions WF / F_embedderFirst). -/
-theorem C07_fixpoint_partial (lk : Leaks) (d₁ d₂ : Disk) :
+    history (repeat, stale output, deleted output, any other directory content) gives the same run -/
+theorem C07_disk_irrelevant (lk : Leaks) (d₁ d₂ : Disk) :
     (∀ ts, generate (mapMachine lk) d₁ ts = generate (mapMachine lk) d₂ ts) ∧
     (∀ ts, generate simpleMachine d₁ ts = generate simpleMachine d₂ ts) :=
   ⟨generate_disk_irrelevant (mapMachine lk) (fun _ _ _ _ => rfl) d₁ d₂,
    generate_disk_irrelevant simpleMachine (fun _ _ _ _ => rfl) d₁ d₂⟩
+
+/-- fixpoint for `new` WITHOUT `-getset` at HEAD, separate files or all-in-one: such a run generates no accessor interface,
+    so the files it writes (`W`) declare nothing that is read back; when the files it REPLACES declared none either (no
+    output of an earlier `-getset` run under the same names - that mixture is outside the property: region `Out`), running
+    again over what the run has left gives the same run.  Embedded types, `-json`, stale files of other types: all allowed. -/
+theorem C07_fixpoint_new_plain (fl : NFlags) (hg : fl.getset = false) (ts : List NType) (d W : Disk)
+    (hW : W = writtenSep (newMachine codeToday fl) (generate (newMachine codeToday fl) d ts) ∨
+          ∃ n, W = writtenAio (newMachine codeToday fl) n (generate (newMachine codeToday fl) d ts))
+    (hd : ∀ f ∈ d, f.name ∈ W.map (·.name) → f.defs = []) :
+    generate (newMachine codeToday fl) (afterRun d W) ts = generate (newMachine codeToday fl) d ts := by
+  show generate (newMachine noLeaks fl) (afterRun d W) ts = generate (newMachine noLeaks fl) d ts
+  apply generate_nogetset_congr fl hg
+  apply findDef_afterRun_nodefs W d ?_ hd
+  have hmem := generate_nogetset_mem fl hg d ts
+  rcases hW with rfl | ⟨n, rfl⟩
+  · intro g hgm
+    simp only [writtenSep, List.mem_map] at hgm
+    obtain ⟨p, hp, rfl⟩ := hgm
+    exact hmem p hp
+  · intro g hgm
+    simp only [writtenAio] at hgm
+    split at hgm
+    · cases hgm
+    · simp only [List.mem_singleton] at hgm
+      subst hgm
+      show List.flatMap (fun p => ((newMachine noLeaks fl).gfile p.1 p.2).defs) (generate (newMachine noLeaks fl) d ts) = []
+      rw [List.flatMap_eq_nil_iff]
+      exact fun p hp => hmem p hp
 
 /-- a type free of embedded structs looks nothing up: its `new` output is the same over any directory -/
 theorem C07_fixpoint_noembed (lk : Leaks) (fl : NFlags) (d₁ d₂ : Disk) (st : NSt) (t : NType)
@@ -288,6 +315,30 @@ theorem C07_fixpoint_new (fl : NFlags) (hg : fl.getset = true) (ts : List NType)
   rw [generate_eq_seqRun fl hg d ts] at hinv ⊢
   rw [generate_eq_seqRun fl hg]
   exact ((seqRun_agree noLeaks fl hw ts d _ (fun _ h => h) hH hinv.1 hC (fun i hi => (hinv.2 i hi).symm) hd).1).symm
+
+/-- headline: `run (disk ∪ run disk) = run disk` on the well-formed region, all four sub-commands (the code at HEAD).
+    `map`, `enum`, `rest`: over ANY directory and whatever has been written; `new` without `-getset`: when the replaced files
+    declared no accessor interface (`C07_fixpoint_new_plain`); `new -getset`, separate files: when every listed type comes after
+    the listed types it embeds, over a hygienic directory (`C07_fixpoint_new`; an embedder first is the finding F_embedderFirst).
+    Not covered by a theorem: `new -getset` into ONE file (`-file=` / `-type=*`) - there the repeat legs of the correspondence
+    decide, and the edited-source history is the finding F_staleAllInOne. -/
+theorem C07_fixpoint (fl : NFlags) (d : Disk) :
+    (∀ (lk : Leaks) (ts : List MType) (W : Disk),
+      generate (mapMachine lk) (afterRun d W) ts = generate (mapMachine lk) d ts) ∧
+    (∀ (ts : List SType) (W : Disk), generate simpleMachine (afterRun d W) ts = generate simpleMachine d ts) ∧
+    (fl.getset = false → ∀ (ts : List NType) (W : Disk),
+      (W = writtenSep (newMachine codeToday fl) (generate (newMachine codeToday fl) d ts) ∨
+        ∃ n, W = writtenAio (newMachine codeToday fl) n (generate (newMachine codeToday fl) d ts)) →
+      (∀ f ∈ d, f.name ∈ W.map (·.name) → f.defs = []) →
+      generate (newMachine codeToday fl) (afterRun d W) ts = generate (newMachine codeToday fl) d ts) ∧
+    (fl.getset = true → ∀ ts : List NType, WFL ts → Hyg ts d → Clo ts d → DepsFirst ts →
+      generate (newMachine codeToday fl)
+          (afterRun d (writtenSep (newMachine codeToday fl) (generate (newMachine codeToday fl) d ts))) ts
+        = generate (newMachine codeToday fl) d ts) :=
+  ⟨fun lk ts W => (C07_disk_irrelevant lk (afterRun d W) d).1 ts,
+   fun ts W => (C07_disk_irrelevant noLeaks (afterRun d W) d).2 ts,
+   fun hg ts W hW hd => C07_fixpoint_new_plain fl hg ts d W hW hd,
+   fun hg ts hw hH hC hdf => C07_fixpoint_new fl hg ts d hw hH hC hdf⟩
 
 /-- stale independence for `new -getset` at HEAD, run level: two hygienic directories that agree on the interfaces
     of the types OUTSIDE the list give the same run, whatever (stale) output of the listed types they hold -/
@@ -358,6 +409,17 @@ example : (let m := newMachine codeToday { getset := true, json := true }
      let disk1 := afterRun [] (writtenAio m "t.shootnew.go" (generateR fullRepair m (.aio "t.shootnew.go") [] [hM true, hZ]))
      (generateR fullRepair m (.aio "t.shootnew.go") disk1 [hM false, hZ]).map (·.2.jget) = [[], ["id"]] ∧
      (generateR noRepair m (.aio "t.shootnew.go") disk1 [hM false, hZ]).map (·.2.jget) = [[], ["name", "id"]]) := by decide
+
+/-- `C07_fixpoint_new_plain` / `C07_fixpoint`, third part: `shoot new -json -type=M,Z` (Z embeds M) over a directory that holds
+    MGetter in a file of ANOTHER name (hand-written, or output of another package member) - the hypotheses hold (the files the
+    run replaces do not exist yet), the embedder reads the accessor, and the second run repeats the first -/
+example : (let m := newMachine codeToday { json := true }
+     let d : Disk := [{ name := "acc.go", defs := [("MGetter", { methods := ["Name"] })] }]
+     let r1 := generate m d [hM true, hZ]
+     let W := writtenSep m r1
+     (∀ f ∈ d, f.name ∈ W.map (·.name) → f.defs = []) ∧
+     r1.map (·.2.jget) = [["name"], ["name", "id"]] ∧ (generate m [] [hM true, hZ]).map (·.2.jget) = [["name"], ["id"]] ∧
+     (generate m (afterRun d W) [hM true, hZ]).map (·.2.jget) = r1.map (·.2.jget)) := by decide
 
 /-! ## non-vacuity -/
 
